@@ -1133,9 +1133,12 @@ def create_fcnptr_typemap(node, fields=None):
         cxx_name,
         base="fcnptr",
         sgroup="fcnptr",
-        c_type="c_type",
-        cxx_type="cxx_type",
-        f_type="XXXf_type",
+        # The typedef name is declared by the user's header and is
+        # usable from C; Fortran sees an opaque procedure pointer.
+        c_type=cxx_name,
+        cxx_type=cxx_type,
+        f_type="type(C_FUNPTR)",
+        f_module=dict(iso_c_binding=["C_FUNPTR"]),
     )
     # Check if all fields are C compatible
 #            ntypemap.compute_flat_name()
